@@ -907,6 +907,20 @@ theorem composed_delivery_is_fifo_per_sender_with_the_same_fields (k k' : Nat) (
   simp only [Compose.accepts, Compose.running, Bool.and_eq_true] at ha
   exact ha.2
 
+/-- (references are isolated) Nothing done through, by or to another reference `q` — sends, its
+proxy handling a message, its original answering, dropping or exiting, its callers giving up — touches
+the state of reference `p` (tags, pending calls, mailbox, what its original received, what its
+callers got). Together with the two `…named_by_to` theorems: the only steps that change reference
+`p` are those addressed to `p`, the moves of ITS frames / replies on the shared wires, and the
+session's own events. -/
+theorem composed_references_are_isolated (s : Compose.Sys) (p q : Nat) (h : p ≠ q) (a b : Nat) :
+    (Compose.step s (.cast q a b)).nets p = s.nets p ∧ (Compose.step s (.call q a b)).nets p = s.nets p ∧
+    (Compose.step s (.abandon q a)).nets p = s.nets p ∧ (Compose.step s (.proxy q)).nets p = s.nets p ∧
+    (Compose.step s (.answer q a b)).nets p = s.nets p ∧ (Compose.step s (.drop q a)).nets p = s.nets p ∧
+    (Compose.step s (.targetExit q)).nets p = s.nets p := by
+  refine ⟨?_, ?_, ?_, ?_, ?_, ?_, ?_⟩ <;> simp only [Compose.step] <;> (try split) <;>
+    first | rfl | exact Compose.upd_other _ _ _ _ h
+
 /-- (nothing is lost on the SHARED wire) With the original alive and the proxy running, what was sent
 through reference `p` is exactly: what the original has received, then the frames addressed to `p`
 that are on the shared wire (oldest first, whatever other references' frames are between them),
@@ -1191,6 +1205,7 @@ theorem extracted_payload_field_mapping :
 #print axioms C20.composed_wire_hands_each_frame_to_the_original_named_by_to
 #print axioms C20.composed_reply_goes_only_to_the_proxy_named_by_to
 #print axioms C20.composed_delivery_is_fifo_per_sender_with_the_same_fields
+#print axioms C20.composed_references_are_isolated
 #print axioms C20.composed_nothing_is_lost_on_the_shared_wire
 #print axioms C20.composed_replies_reach_exactly_their_caller
 #print axioms C20.composed_send_succeeds_iff_proxy_runs
